@@ -275,7 +275,7 @@ impl Gen {
                 }
             }
             74 => json!({"op": "create_nstyle", "name": format!("NS{}", self.rng.gen_range(0..4)), "style": self.style_spec(),
-                         "includes": {"number_format": true, "font": true, "fill": self.rng.gen_bool(0.5), "border": true, "alignment": true, "protection": true}}),
+                         "includes": {"number_format": self.rng.gen_bool(0.7), "font": self.rng.gen_bool(0.6), "fill": self.rng.gen_bool(0.5), "border": self.rng.gen_bool(0.7), "alignment": self.rng.gen_bool(0.7), "protection": true}}),
             75 => {
                 if let Some(n) = nstyles.iter().filter(|n| n.starts_with("NS")).collect::<Vec<_>>().choose(&mut self.rng) {
                     let nn = if self.rng.gen_bool(0.5) { format!("{n}r") } else { n.to_string() };
@@ -359,6 +359,17 @@ impl Gen {
                     json!({"op": "input", "s": s, "r": r, "c": c, "text": *self.pick(CONTENT)})
                 }
             }
+        }
+    }
+
+    /// a named style in use gets a new font and number format (what a later style update propagates to
+    /// the cells depends on flags that a reload must keep)
+    pub fn nstyle_update_probe(&mut self, um: &UserModel) -> Value {
+        let names: Vec<String> = um.get_named_style_list().into_iter().filter(|n| n.starts_with("NS")).collect();
+        match names.choose(&mut self.rng) {
+            Some(n) => json!({"op": "upd_nstyle", "name": n, "new_name": n, "style": [["font.b", "true"], ["font.sz", "16"], ["num_fmt", "0.00"], ["fill.color", "#DDDDDD"]],
+                              "includes": {"number_format": true, "font": true, "fill": true, "border": true, "alignment": true, "protection": true}}),
+            None => json!({"op": "create_nstyle", "name": "NS2", "style": [["num_fmt", "0.0"]], "includes": {"number_format": true, "font": false, "fill": false, "border": false, "alignment": false, "protection": false}}),
         }
     }
 
